@@ -158,15 +158,26 @@ func runOverlayTest(cfg *RunCfg, gp string) (string, bool) {
 	if pkgRel == "" || pkgRel == "." {
 		pkgArg = "."
 	}
-	cmd := exec.CommandContext(ctx, "go", "test", "-overlay", ovPath, "-vet=off", "-count=1", "-timeout", "60s", "-run", "TestVerifReplay", pkgArg)
+	args := []string{"test", "-overlay", ovPath, "-vet=off", "-count=1", "-timeout", "120s", "-run", "TestVerifReplay"}
+	confirm := "REPLAY-CONFIRMED"
+	for _, ln := range strings.SplitN(string(data), "\n", 6) {
+		if strings.HasPrefix(ln, "// flags:") {
+			args = append(args, strings.Fields(strings.TrimPrefix(ln, "// flags:"))...)
+		}
+		if strings.HasPrefix(ln, "// confirm:") {
+			confirm = strings.TrimSpace(strings.TrimPrefix(ln, "// confirm:"))
+		}
+	}
+	args = append(args, pkgArg)
+	cmd := exec.CommandContext(ctx, "go", args...)
 	cmd.Dir = cfg.Repo
-	cmd.Env = append(os.Environ(), "GOFLAGS=-mod=mod", "GOPROXY=off", "GOSUMDB=off", "GOTOOLCHAIN=local")
+	cmd.Env = append(os.Environ(), "GOFLAGS=-mod=mod", "GOPROXY=off", "GOSUMDB=off", "GOTOOLCHAIN=local", "CGO_ENABLED=1")
 	var out bytes.Buffer
 	cmd.Stdout = &out
 	cmd.Stderr = &out
 	cmd.Run()
 	text := out.String()
-	ok := strings.Contains(text, "REPLAY-CONFIRMED")
+	ok := strings.Contains(text, confirm)
 	return trunc(text, 6000), ok
 }
 
